@@ -73,6 +73,18 @@ impl<'de> Deserializer<'de> {
     }
 }
 
+impl<'de> Deserializer<'de> {
+    /// The integer this term holds, whichever way it is represented: integers outside
+    /// the 32-bit range come off the wire as big integers.
+    fn integer(&self) -> Option<i64> {
+        match self.term {
+            OwnedTerm::Integer(i) => Some(*i),
+            OwnedTerm::BigInt(big) => big.to_i64(),
+            _ => None,
+        }
+    }
+}
+
 impl<'de> SerdeDeserializer<'de> for &mut Deserializer<'de> {
     type Error = Error;
 
@@ -121,11 +133,11 @@ impl<'de> SerdeDeserializer<'de> for &mut Deserializer<'de> {
     }
 
     fn deserialize_i8<V: Visitor<'de>>(self, visitor: V) -> Result<V::Value> {
-        match self.term {
-            OwnedTerm::Integer(i) => i8::try_from(*i)
+        match self.integer() {
+            Some(i) => i8::try_from(i)
                 .map_err(|_| Error::InvalidValue(format!("integer {} out of range for i8", i)))
                 .and_then(|v| visitor.visit_i8(v)),
-            _ => Err(Error::TypeMismatch {
+            None => Err(Error::TypeMismatch {
                 expected: "integer".into(),
                 found: format!("{:?}", self.term),
             }),
@@ -133,11 +145,11 @@ impl<'de> SerdeDeserializer<'de> for &mut Deserializer<'de> {
     }
 
     fn deserialize_i16<V: Visitor<'de>>(self, visitor: V) -> Result<V::Value> {
-        match self.term {
-            OwnedTerm::Integer(i) => i16::try_from(*i)
+        match self.integer() {
+            Some(i) => i16::try_from(i)
                 .map_err(|_| Error::InvalidValue(format!("integer {} out of range for i16", i)))
                 .and_then(|v| visitor.visit_i16(v)),
-            _ => Err(Error::TypeMismatch {
+            None => Err(Error::TypeMismatch {
                 expected: "integer".into(),
                 found: format!("{:?}", self.term),
             }),
@@ -145,11 +157,11 @@ impl<'de> SerdeDeserializer<'de> for &mut Deserializer<'de> {
     }
 
     fn deserialize_i32<V: Visitor<'de>>(self, visitor: V) -> Result<V::Value> {
-        match self.term {
-            OwnedTerm::Integer(i) => i32::try_from(*i)
+        match self.integer() {
+            Some(i) => i32::try_from(i)
                 .map_err(|_| Error::InvalidValue(format!("integer {} out of range for i32", i)))
                 .and_then(|v| visitor.visit_i32(v)),
-            _ => Err(Error::TypeMismatch {
+            None => Err(Error::TypeMismatch {
                 expected: "integer".into(),
                 found: format!("{:?}", self.term),
             }),
@@ -157,9 +169,9 @@ impl<'de> SerdeDeserializer<'de> for &mut Deserializer<'de> {
     }
 
     fn deserialize_i64<V: Visitor<'de>>(self, visitor: V) -> Result<V::Value> {
-        match self.term {
-            OwnedTerm::Integer(i) => visitor.visit_i64(*i),
-            _ => Err(Error::TypeMismatch {
+        match self.integer() {
+            Some(i) => visitor.visit_i64(i),
+            None => Err(Error::TypeMismatch {
                 expected: "integer".into(),
                 found: format!("{:?}", self.term),
             }),
@@ -167,11 +179,11 @@ impl<'de> SerdeDeserializer<'de> for &mut Deserializer<'de> {
     }
 
     fn deserialize_u8<V: Visitor<'de>>(self, visitor: V) -> Result<V::Value> {
-        match self.term {
-            OwnedTerm::Integer(i) => u8::try_from(*i)
+        match self.integer() {
+            Some(i) => u8::try_from(i)
                 .map_err(|_| Error::InvalidValue(format!("integer {} out of range for u8", i)))
                 .and_then(|v| visitor.visit_u8(v)),
-            _ => Err(Error::TypeMismatch {
+            None => Err(Error::TypeMismatch {
                 expected: "integer".into(),
                 found: format!("{:?}", self.term),
             }),
@@ -179,11 +191,11 @@ impl<'de> SerdeDeserializer<'de> for &mut Deserializer<'de> {
     }
 
     fn deserialize_u16<V: Visitor<'de>>(self, visitor: V) -> Result<V::Value> {
-        match self.term {
-            OwnedTerm::Integer(i) => u16::try_from(*i)
+        match self.integer() {
+            Some(i) => u16::try_from(i)
                 .map_err(|_| Error::InvalidValue(format!("integer {} out of range for u16", i)))
                 .and_then(|v| visitor.visit_u16(v)),
-            _ => Err(Error::TypeMismatch {
+            None => Err(Error::TypeMismatch {
                 expected: "integer".into(),
                 found: format!("{:?}", self.term),
             }),
@@ -191,11 +203,11 @@ impl<'de> SerdeDeserializer<'de> for &mut Deserializer<'de> {
     }
 
     fn deserialize_u32<V: Visitor<'de>>(self, visitor: V) -> Result<V::Value> {
-        match self.term {
-            OwnedTerm::Integer(i) => u32::try_from(*i)
+        match self.integer() {
+            Some(i) => u32::try_from(i)
                 .map_err(|_| Error::InvalidValue(format!("integer {} out of range for u32", i)))
                 .and_then(|v| visitor.visit_u32(v)),
-            _ => Err(Error::TypeMismatch {
+            None => Err(Error::TypeMismatch {
                 expected: "integer".into(),
                 found: format!("{:?}", self.term),
             }),
@@ -241,23 +253,27 @@ impl<'de> SerdeDeserializer<'de> for &mut Deserializer<'de> {
     }
 
     fn deserialize_char<V: Visitor<'de>>(self, visitor: V) -> Result<V::Value> {
-        match self.term {
-            OwnedTerm::String(s) => {
-                let mut chars = s.chars();
-                if let Some(c) = chars.next()
-                    && chars.next().is_none()
-                {
-                    return visitor.visit_char(c);
-                }
-                Err(Error::InvalidValue("expected single char".into()))
+        // a char is serialised as a one-character string, which the wire carries as a binary
+        let s = match self.term {
+            OwnedTerm::String(s) => s.as_str(),
+            OwnedTerm::Binary(b) => {
+                str::from_utf8(b).map_err(|e| Error::InvalidValue(e.to_string()))?
             }
-            _ => Err(Error::TypeMismatch {
-                expected: "string".into(),
-                found: format!("{:?}", self.term),
-            }),
+            _ => {
+                return Err(Error::TypeMismatch {
+                    expected: "string".into(),
+                    found: format!("{:?}", self.term),
+                });
+            }
+        };
+        let mut chars = s.chars();
+        if let Some(c) = chars.next()
+            && chars.next().is_none()
+        {
+            return visitor.visit_char(c);
         }
+        Err(Error::InvalidValue("expected single char".into()))
     }
-
     fn deserialize_str<V: Visitor<'de>>(self, visitor: V) -> Result<V::Value> {
         match self.term {
             OwnedTerm::Binary(b) => {
@@ -272,7 +288,6 @@ impl<'de> SerdeDeserializer<'de> for &mut Deserializer<'de> {
             }),
         }
     }
-
     fn deserialize_string<V: Visitor<'de>>(self, visitor: V) -> Result<V::Value> {
         self.deserialize_str(visitor)
     }
